@@ -145,6 +145,8 @@ def structured_models(tier):
     ms += loop_subscript_models(tier)
     ms += fun_loop_models(tier)
     ms += call_site_models(tier)
+    ms += matrix_equation_models(tier)
+    ms += fun_if_models(tier)
     if tier == "thorough":
         for n, (i, j) in itertools.product((2, 3), itertools.product((1, 2), (1, 2))):
             add(f"idx-comp[{n}][{i},{j}]", f"  Q qq[2];\n  Real a;\n", f"  a = qq[{i}].w[{j}];\n",
@@ -361,6 +363,281 @@ def call_site_models(tier):
         SAT2 = SAT.replace("sat", "sat2").replace("k * u", "k + u")
         add("two-functions", V, "  y[1] = sat(x[1], g[1]);\n  y[2] = sat2(x[1], g[1]);\n  y[3] = sat2(x[2], g[1]);\n  z = sat(x[2], g[1]);\n"
             "  der(x) = y;\n", SAT + SAT2)
+    return ms
+
+
+# ---- whole-array equations whose two sides are matrices of the same shape ----------------------
+# lhs A[n,m]; operands B, C [n,m], T [m,n], S [m,m], L [n,n], D [n+1,m+1], scalars a, b.
+# Square shapes are the interesting ones (shape == reversed shape); 1x1, non-square and
+# single-row/column matrices are the neighbouring controls.
+MAT_SHAPES = {"quick": [(2, 2), (3, 3), (2, 3)],
+              "thorough": [(2, 2), (3, 3), (2, 3), (3, 2), (1, 1), (1, 3), (3, 1), (4, 4)]}
+MAT_RHS = ["copy", "neg", "lin", "scal", "ew", "ewdiv", "if", "elseif", "tr", "trtr", "tr-sum", "prod-r", "prod-l",
+           "prod-sum", "slice", "slice-step", "fun", "fun-tr"]
+# (array constructors `{{a, b}, {c, d}}` with non-constant entries are not in C11's list of forms and are not
+#  accepted by the backend: no matrix-literal rhs)
+MAT_POSITIONS = {"quick": ["eq", "swap", "der", "init", "decl", "ifeq", "lhs-slice"],
+                 "thorough": ["eq", "swap", "lhs-expr", "der", "init", "decl", "ifeq", "lhs-slice", "comp", "two-eq"]}
+# quick: every rhs form as a plain equation on the square shapes (a few on the non-square control),
+# every position on representatives
+MAT_QUICK_POS_RHS = ["lin", "tr", "prod-r", "fun"]
+MAT_QUICK_NONSQUARE_RHS = ["lin", "tr", "prod-r", "if", "fun-tr"]
+
+
+def matrix_rhs(kind, n, m):
+    """(expression text, set of operand names it needs, function definitions)."""
+    pre = ""
+    if kind == "copy":
+        e = "B"
+    elif kind == "neg":
+        e = "-B"
+    elif kind == "lin":
+        e = "B + 2 * C"
+    elif kind == "scal":
+        e = "a * B - C * b"
+    elif kind == "ew":
+        e = "B .* C - B"
+    elif kind == "ewdiv":
+        e = "B ./ C"
+    elif kind == "if":
+        e = "if a > b then B else C"
+    elif kind == "elseif":
+        e = "if a > b then B elseif a > 0 then C else B - C"
+    elif kind == "tr":
+        e = "transpose(T)"
+    elif kind == "trtr":
+        e = "transpose(transpose(B))"
+    elif kind == "tr-sum":
+        e = "transpose(T) + C * a"
+    elif kind == "prod-r":
+        e = "B * S"
+    elif kind == "prod-l":
+        e = "L * B"
+    elif kind == "prod-sum":
+        e = "B * S - L * C"
+    elif kind == "slice":
+        e = f"D[1:{n},2:{m + 1}]"
+    elif kind == "slice-step":
+        e = f"D2[1:2:{2 * n - 1},2:2:{2 * m}]"
+    elif kind == "fun":
+        e = "fm(B, a)"
+        pre = (f"function fm\n  input Real X[{n},{m}];\n  input Real k;\n  output Real Y[{n},{m}];\nalgorithm\n"
+               "  Y := X + X;\n  Y := Y * k - X;\nend fm;\n")
+    elif kind == "fun-tr":
+        e = "ft(T)"
+        pre = (f"function ft\n  input Real X[{m},{n}];\n  output Real Y[{n},{m}];\nalgorithm\n  Y := transpose(X);\nend ft;\n")
+    else:
+        raise ValueError(kind)
+    need = set(re.findall(r"\b(D2|[BCTSLDab])\b", e))
+    return e, need, pre
+
+
+def matrix_equation_model(n, m, kind, pos):
+    rhs, need, pre = matrix_rhs(kind, n, m)
+    dims = {"B": (n, m), "C": (n, m), "T": (m, n), "S": (m, m), "L": (n, n), "D": (n + 1, m + 1), "D2": (2 * n, 2 * m)}
+    init = ""
+    a_decl = f"  Real A[{n},{m}];\n"
+    if pos == "eq":
+        eqs = f"  A = {rhs};\n"
+    elif pos == "swap":
+        eqs = f"  ({rhs}) = A;\n" if rhs.startswith("if ") else f"  {rhs} = A;\n"
+    elif pos == "lhs-expr":
+        need.add("C")
+        eqs = f"  2 * A - C = {rhs};\n"
+    elif pos == "der":
+        eqs = f"  der(A) = {rhs};\n"
+    elif pos == "init":
+        need.add("C")
+        eqs = "  der(A) = C - A;\n"
+        init = f"  A = {rhs};\n"
+    elif pos == "decl":
+        a_decl = f"  Real A[{n},{m}] = {rhs};\n"
+        eqs = ""
+    elif pos == "ifeq":
+        need |= {"C", "a"}
+        eqs = f"  if a > 1 then\n    A = {rhs};\n  else\n    A = C;\n  end if;\n"
+    elif pos == "lhs-slice":
+        a_decl = f"  Real A[{n + 1},{m + 2}];\n"
+        eqs = f"  A[2:{n + 1},2:{m + 1}] = {rhs};\n"
+    elif pos == "two-eq":
+        need |= {"B", "C"}
+        eqs = f"  A = {rhs};\n  B = C;\n"
+    elif pos == "comp":
+        eqs = f"  A = {rhs};\n"
+    else:
+        raise ValueError(pos)
+    decl = a_decl + "".join(f"  Real {k}[{dims[k][0]},{dims[k][1]}];\n" for k in sorted(need) if k in dims)
+    decl += "".join(f"  Real {k};\n" for k in sorted(need) if k in "ab")
+    body = decl + "equation\n" + eqs + ("initial equation\n" + init if init else "")
+    if pos == "comp":
+        return pre + "model N\n" + body + "end N;\nmodel M\n  N n1;\n  N n2;\nend M;\n"
+    return pre + "model M\n" + body + "end M;\n"
+
+
+def matrix_equation_models(tier):
+    ms, seen = [], set()
+
+    def add(cid, text):
+        if text not in seen:
+            seen.add(text)
+            ms.append((cid, text, "M"))
+
+    for (n, m), kind, pos in itertools.product(MAT_SHAPES[tier], MAT_RHS, MAT_POSITIONS[tier]):
+        if tier == "quick":
+            if pos != "eq" and not (kind in MAT_QUICK_POS_RHS and (n, m) == (2, 2)):
+                continue
+            if pos == "eq" and n != m and kind not in MAT_QUICK_NONSQUARE_RHS:
+                continue
+        if (n, m) == (4, 4) and (pos != "eq" or kind == "prod-sum"):
+            continue
+        if pos == "decl" and kind.startswith("fun") and (n, m, kind) != (2, 2, "fun"):
+            continue  # a function call in a declaration binding: one representative (see known findings)
+        add(f"mat-eq[{n}x{m}|{kind}|{pos}]", matrix_equation_model(n, m, kind, pos))
+    # rows / columns / square sub-blocks of square matrices against vectors and each other
+    for n in ((2, 3) if tier == "quick" else (1, 2, 3, 4)):
+        D = f"  Real A[{n},{n}];\n  Real B[{n},{n}];\n  Real r[{n}];\n  Real s[{n}];\n"
+        ks = ((1, n) if n == 2 else (2,)) if tier == "quick" else range(1, n + 1)
+        for k in sorted(set(ks)):
+            o = n + 1 - k
+            add(f"mat-sq[{n}|read|{k}]", "model M\n" + D + f"equation\n  r = A[{k},:];\n  s = A[:,{k}] * 2;\nend M;\n")
+            add(f"mat-sq[{n}|write|{k}]", "model M\n" + D + f"equation\n  A[{k},:] = r;\n  B[:,{k}] = s - r;\nend M;\n")
+            add(f"mat-sq[{n}|row-col|{k}]", "model M\n" + D + f"equation\n  A[{k},:] = B[:,{o}];\n  B[:,{k}] = A[{o},:] * 2;\nend M;\n")
+            add(f"mat-sq[{n}|row-row|{k}]", "model M\n" + D + f"equation\n  A[{k},:] = B[{o},:] + B[{k},:];\n  A[:,{k}] = B[:,{o}] - s;\nend M;\n")
+        if n >= 3:
+            for (i, j) in [(1, 2), (2, 1)] + ([(1, 1), (2, 2)] if tier == "thorough" else []):
+                add(f"mat-sq[{n}|block|{i},{j}]", "model M\n" + D +
+                    f"equation\n  A[{i}:{i + 1},{j}:{j + 1}] = B[{j}:{j + 1},{i}:{i + 1}] + transpose(B[1:2,2:3]);\nend M;\n")
+        if n == 2:
+            # a row of a matrix combined with a vector: one representative (see known findings)
+            add("mat-sq[2|row-plus-vec]", "model M\n" + D + "equation\n  s = A[1,:] + r;\nend M;\n")
+        add(f"mat-sq[{n}|vec-prod]", "model M\n" + D + "equation\n  r = A * s;\n  s = transpose(B) * r;\nend M;\n")
+        add(f"mat-sq[{n}|for-row]", "model M\n" + D + f"equation\n  for i in 1:{n} loop\n    A[i,:] = B[i,:] * 2 - r[i] * s;\n  end for;\nend M;\n")
+        add(f"mat-sq[{n}|for-col]", "model M\n" + D + f"equation\n  for i in 1:{n} loop\n    A[:,i] = B[:,i] + r;\n  end for;\nend M;\n")
+    # assignment to single array elements (literal subscripts) in a function body, outside loops:
+    # three representatives (see known findings)
+    g = lambda dims, body: (f"function g\n  input Real x[{dims}];\n  output Real y[{dims}];\nalgorithm\n  y := x;\n" + body + "end g;\n"
+                            f"model M\n  Real v[{dims}];\n  Real w[{dims}];\nequation\n  w = g(v);\nend M;\n")
+    add("fun-elem-assign[1d|one]", g("2", "  y[1] := x[2] * 2;\n"))
+    add("fun-elem-assign[2d|one]", g("2,2", "  y[1,2] := x[2,1] * 2;\n"))
+    add("fun-elem-assign[1d|all]", g("2", "  y[1] := x[2] * 2;\n  y[2] := x[1] - 1;\n"))
+    return ms
+
+
+# ---- user functions with an if-statement: condition form x statement shape x call form ---------
+# Conditions over the Real inputs x, y.  Under the 0/1 encoding `or` is a sum, so several of them
+# take the values 2, 3, 4 (all "true"), `and` of such sums is a product > 1.
+FUN_IF_CONDS = [
+    ("rel", "x > 0"), ("or2", "x > 0 or y > 0"), ("or3", "x > 0 or y > 0 or x > y"), ("and2", "x > 0 and y > 0"),
+    ("not", "not x > 0"), ("not-or", "not (x > 0 or y > 0)"), ("and-or", "x > 0 and (y > 0 or x > y)"),
+    ("or-and", "(x > 0 or y > 0) and (x > 1 or y > 1)"), ("or-not", "x > 0 or not y > 0"), ("or-implied", "x > 1 or x > 0"),
+    ("or-same", "x > 0 or x > 0"), ("ne", "x <> y"), ("eq-or", "x == y or x >= y"), ("and-not", "x > 0 and not y > x"),
+]
+FUN_IF_SHAPES = ["else", "elseif-first", "elseif-second", "elseif-both", "two-targets", "reads-target", "chain", "nested",
+                 "cond-reads-target", "cond-after-update", "bool-local", "bool-arg", "after", "guard", "vec-target"]
+FUN_IF_CALLS = ["plain", "expr-arg", "nested-call", "two-calls", "in-loop", "in-ifexpr", "init"]
+FUN_IF_QUICK_SHAPES = ["else", "elseif-first"]
+FUN_IF_QUICK_CONDS = ["rel", "or2", "or-and"]
+
+
+def fun_if_model(cond, shape, call):
+    """Text of one model: function f(x, y) -> z [, w] whose body is an if-statement of the given
+    shape on condition `cond`, called in the given form.  None if the combination is meaningless."""
+    outs, prot, args = ["z"], [], "Real x;|Real y;"
+    I = lambda *ls: "".join(f"  {l}\n" for l in ls)
+    if shape == "else":
+        body = I(f"if {cond} then", "  z := x + y;", "else", "  z := x - 2 * y;", "end if;")
+    elif shape == "elseif-first":
+        body = I(f"if {cond} then", "  z := x + y;", "elseif y > x then", "  z := 3 * y;", "else", "  z := -1;", "end if;")
+    elif shape == "elseif-second":
+        body = I("if y > x then", "  z := 3 * y;", f"elseif {cond} then", "  z := x + y;", "else", "  z := -1;", "end if;")
+    elif shape == "elseif-both":
+        body = I(f"if {cond} then", "  z := x + y;", "elseif x > 1 or y > 1 then", "  z := x - y;",
+                 "elseif x > y or y > 1 then", "  z := 2 * x;", "else", "  z := -1;", "end if;")
+    elif shape == "two-targets":
+        outs = ["z", "w"]
+        body = I(f"if {cond} then", "  z := x + y;", "  w := x;", "else", "  z := 1;", "  w := y - x;", "end if;")
+    elif shape == "reads-target":
+        body = I("z := 2 * x;", f"if {cond} then", "  z := z + y;", "else", "  z := z - y;", "end if;")
+    elif shape == "chain":
+        prot.append("Real t;")
+        body = I(f"if {cond} then", "  t := x + 1;", "  z := t + y;", "else", "  t := y;", "  z := t - x;", "end if;")
+    elif shape == "nested":
+        body = I(f"if {cond} then", "  if x > y then", "    z := x;", "  else", "    z := y;", "  end if;", "else", "  z := 0 - x;", "end if;")
+    elif shape == "cond-reads-target":
+        zc = re.sub(r"\bx\b", "z", cond)
+        body = I("z := x - y;", f"if {zc} then", "  z := z - 1;", "else", "  z := z + 1;", "end if;")
+    elif shape == "cond-after-update":
+        outs = ["z", "w"]
+        zc = re.sub(r"\bx\b", "z", cond)
+        body = I("z := x;", f"if {zc} then", "  z := z - 5;", "  w := 1;", "else", "  z := z + 5;", "  w := 2;", "end if;")
+    elif shape == "bool-local":
+        prot.append("Boolean c;")
+        body = I(f"c := {cond};", "if c then", "  z := x + y;", "else", "  z := x - 2 * y;", "end if;")
+    elif shape == "bool-arg":
+        args += "|Boolean c;"
+        body = I("if c then", "  z := x + y;", "else", "  z := x - 2 * y;", "end if;")
+    elif shape == "after":
+        prot.append("Real t;")
+        body = I(f"if {cond} then", "  z := x + y;", "  t := 1;", "else", "  z := x - 2 * y;", "  t := y;", "end if;", "z := 2 * z + t;")
+    elif shape == "guard":
+        body = I(f"if {cond} then", "  z := y / x;", "else", "  z := 0;", "end if;")
+    elif shape == "vec-target":
+        outs = ["z", "w"]
+        args += "|Real g[2];"
+        prot.append("Real q[2];")
+        body = I(f"if {cond} then", "  q := g + g;", "else", "  q := -g;", "end if;", "z := q[1] + x;", "w := q[2] - q[1] * y;")
+    else:
+        raise ValueError(shape)
+    fn = ("function f\n" + "".join(f"  input {a}\n" for a in args.split("|")) + "".join(f"  output Real {o};\n" for o in outs)
+          + ("protected\n" if prot else "") + "".join(f"  {p}\n" for p in prot) + "algorithm\n" + body + "end f;\n")
+    # the Boolean argument of shape bool-arg is the condition itself, written over the call's operands
+    subst = lambda xa, ya: re.sub(r"\b[xy]\b", lambda mo: xa if mo.group(0) == "x" else ya, cond)
+    third = {"bool-arg": subst, "vec-target": lambda xa, ya: "h"}.get(shape)
+    c = lambda xa, ya: f"f({xa}, {ya}, {third(xa, ya)})" if third else f"f({xa}, {ya})"
+    two = len(outs) == 2
+    hdecl = "  Real h[2];\n" if shape == "vec-target" else ""
+    decl, init = "  Real a, b, r, s;\n" + hdecl, ""
+    if call == "plain":
+        eqs = f"  (r, s) = {c('a', 'b')};\n" if two else f"  r = {c('a', 'b')};\n"
+    elif two and call != "init":
+        return None  # a call with several outputs is only usable as the whole rhs (see known findings)
+    elif call == "expr-arg":
+        eqs = f"  r = {c('(a - 1)', '(2 * b)')} + a;\n"
+    elif call == "nested-call":
+        eqs = f"  r = {c(c('a', 'b'), 'b')};\n"
+    elif call == "two-calls":
+        eqs = f"  r = {c('a', 'b')} - {c('b', 'a')};\n  s = {c('a', 'a')};\n"
+    elif call == "in-loop":
+        decl = "  Real v[3], u[3], r[3];\n" + hdecl
+        eqs = "  for k in 1:3 loop\n    r[k] = " + c("v[k]", "u[4 - k]") + " * k;\n  end for;\n"
+    elif call == "in-ifexpr":
+        eqs = f"  r = if a > b then {c('a', 'b')} else {c('b', 'a')};\n"
+    elif call == "init":
+        eqs = "  der(r) = a;\n" + ("  der(s) = b;\n" if two else "")
+        init = f"  (r, s) = {c('a', 'b')};\n" if two else f"  r = {c('a', 'b')};\n"
+    else:
+        raise ValueError(call)
+    return fn + "model M\n" + decl + "equation\n" + eqs + ("initial equation\n" + init if init else "") + "end M;\n"
+
+
+def fun_if_models(tier):
+    ms, seen = [], set()
+    for (cn, cond), shape, call in itertools.product(FUN_IF_CONDS, FUN_IF_SHAPES, FUN_IF_CALLS):
+        if shape == "cond-after-update" and (cn, call) != ("rel", "plain"):
+            continue  # a condition that reads a variable assigned earlier in the same if-statement: one representative (see known findings)
+        if tier == "quick":
+            if call == "plain":
+                if not (shape in FUN_IF_QUICK_SHAPES or cn in FUN_IF_QUICK_CONDS):
+                    continue
+            elif (cn, shape) != ("or2", "else"):
+                continue
+        elif call not in ("plain", "expr-arg") and not (cn in FUN_IF_QUICK_CONDS and shape in FUN_IF_QUICK_SHAPES):
+            continue
+        t = fun_if_model(cond, shape, call)
+        if t is None or t in seen:
+            continue
+        seen.add(t)
+        ms.append((f"fun-if[{cn}|{shape}|{call}]", t, "M"))
     return ms
 
 
